@@ -347,6 +347,9 @@ impl Machine {
             }
             "lea" => {
                 let off = match &ops[1] {
+                    Opd::Mem(_, mm) if q.lea_phys => {
+                        (m.ea_phys(mm) as i64 - m.regs.r[DS] as i64 * 16) as u16
+                    }
                     Opd::Mem(_, mm) => m.ea(mm).1,
                     Opd::Lab(_, n) => env.label_off(n),
                     _ => 0,
@@ -705,6 +708,7 @@ pub fn quirk_key_for_insn(i: &Insn) -> Option<&'static str> {
             }
         }
         "jle" | "jng" => Some(QUIRK_KEYS[3]),
+        "lea" => Some(QUIRK_KEYS[4]),
         _ => None,
     }
 }
